@@ -116,8 +116,8 @@ CLAIMED.update({
     "C06": (
         "frozen who-may-reference tables on resolved symbols (confinement of SPACE tokens, offsets, columns), closed forms of the offside comparisons and the affine column tracker, PAIR for the offside stack, interprocedural no-line-end-at-offside-push analysis",
         "Byte equality across re-layouts is not decided. Decided for all programs and layouts: layout reaches parsing only through the token sequence, column comparisons and one adjacency test; the comparison table and column tracking have their documented closed forms; every offside push is popped; "
-        "a block column is never taken from a line-end token (33 sites, interprocedurally through the block-parser callbacks); psNextNOL has a frozen set of users.",
-        "Rules (g) and (h) were added after two seeded variants. Tabs and multi-line comments before a token on the same line are not covered.",
+        "a block column is never taken from a line-end token (33 sites, interprocedurally through the block-parser callbacks); psNextNOL has a frozen set of users; a continuation token found after skipping line ends is accepted only inside the offside line (2 known findings: the dangling else/elif of multi-line ifs).",
+        "Rules (g), (h), (i) were added after seeded variants. Tabs and multi-line comments before a token on the same line are not covered.",
         "DESIGN.md §3 C06",
     ),
     "C15": (
@@ -134,7 +134,7 @@ CLAIMED.update({
         "PAIR abstract interpretation (lexical scoping), panic-default exhaustiveness of every compiler pass, closed forms / emission templates (conditionals, operand order, match dispatch), who-may-call for reordering primitives, strictness scan of emitter templates, go/types check of all shipped generated files, the conditions of C08 (grouping), C10 (equality), C11 (literal emission), C15 (type mapping), C12/C13/C14 (library) and the declaration/typing/instantiation closed forms imported as necessary conditions of this umbrella property",
         "Behavioural equality over all programs is NOT decided. Decided, each for all programs at once, are structural necessary conditions whose violation changes behaviour for some program: scopes are pushed/popped exactly around binders; all 44 never-reached type switches are exhaustive; "
         "conditionals become frt.IfElse*/IfOnly over un-invoked function literals in order; operands are emitted once in source order and never reordered; case labels and constructors share one naming function; every shipped generated file type-checks (the four samples that did not were repaired); `=`/`<>`, string interpolation, operator grouping, type mapping and the standard library satisfy the conditions of their own properties; lists keep their order through every pass; no parse state is dropped. "
-        "1 known finding (partial application re-evaluates supplied arguments).",
+        "3 known findings (partial application re-evaluates supplied arguments; the dangling else/elif of multi-line ifs, whose repair breaks an existing test).",
         "Closures, inference interaction and evaluation results are not decided; Go's left-to-right evaluation order and the frt helpers (C14) are assumed.",
         "DESIGN.md §3 C01",
     ),
